@@ -789,6 +789,9 @@ func (fr *Frame) enterLoop(li *loopInfo, reach Term) {
 	}
 	// inv-init
 	for k, inv := range invs {
+		if fr.skipInv(inv) {
+			continue
+		}
 		fr.subst = entry
 		env := fr.specEnvHere()
 		env.idx = len(phis)
@@ -819,6 +822,9 @@ func (fr *Frame) enterLoop(li *loopInfo, reach Term) {
 	}
 	// assume invariants
 	for _, inv := range invs {
+		if fr.skipInv(inv) {
+			continue
+		}
 		env := fr.specEnvHere()
 		env.idx = len(phis)
 		c := env.evalBool(inv.E)
@@ -1001,6 +1007,9 @@ func (fr *Frame) closeLoop(li *loopInfo, from *ssa.BasicBlock, edge Term) {
 		}
 	}
 	for k, inv := range invs {
+		if fr.skipInv(inv) {
+			continue
+		}
 		fr.subst = next
 		env := &SpecEnv{fr: fr, heap: fr.cur, old: fr.entry, block: b, idx: nphi, bound: map[string]*Val{}}
 		c := env.evalBool(inv.E)
@@ -1080,4 +1089,10 @@ func (fr *Frame) mergeGhosts(preds []*ssa.BasicBlock, conds []Term) map[string]*
 		out[name] = &Val{T: vc.S.Define("ghost."+name, sortS, t), Typ: typ.Typ}
 	}
 	return out
+}
+
+// skipInv: a loop invariant tagged for other properties only ("loop[C06] K invariant ...") is neither checked
+// nor assumed in this property's run - every property's check stands on its own clauses and the untagged ones.
+func (fr *Frame) skipInv(inv Clause) bool {
+	return CurProp != "" && len(inv.Props) > 0 && !hasStr(inv.Props, CurProp)
 }
